@@ -5,8 +5,6 @@ type nat =
 | O
 | S of nat
 
-val option_map : ('a1 -> 'a2) -> 'a1 option -> 'a2 option
-
 val fst : ('a1 * 'a2) -> 'a1
 
 val snd : ('a1 * 'a2) -> 'a2
@@ -187,17 +185,11 @@ val rev : 'a1 list -> 'a1 list
 
 val map : ('a1 -> 'a2) -> 'a1 list -> 'a2 list
 
-val flat_map : ('a1 -> 'a2 list) -> 'a1 list -> 'a2 list
-
 val fold_left : ('a1 -> 'a2 -> 'a1) -> 'a2 list -> 'a1 -> 'a1
 
 val fold_right : ('a2 -> 'a1 -> 'a1) -> 'a1 -> 'a2 list -> 'a1
 
 val existsb : ('a1 -> bool) -> 'a1 list -> bool
-
-val find : ('a1 -> bool) -> 'a1 list -> 'a1 option
-
-val combine : 'a1 list -> 'a2 list -> ('a1 * 'a2) list
 
 val firstn : nat -> 'a1 list -> 'a1 list
 
@@ -230,8 +222,6 @@ val val_eqb : val0 -> val0 -> bool
 
 val val_accepts : val0 -> val0 -> bool
 
-val vbool : val0 -> bool option
-
 val vlistN : val0 list -> n list option
 
 val vNs : val0 -> n list option
@@ -239,8 +229,6 @@ val vNs : val0 -> n list option
 val omap : ('a1 -> 'a2 option) -> 'a1 list -> 'a2 list option
 
 val ofN : n -> val0
-
-val ofnat : nat -> val0
 
 val ofbool : bool -> val0
 
@@ -494,96 +482,6 @@ val insert_by : ('a1 -> 'a1 -> bool) -> 'a1 -> 'a1 list -> 'a1 list
 val sort_by : ('a1 -> 'a1 -> bool) -> 'a1 list -> 'a1 list
 
 val dedup_by : ('a1 -> 'a1 -> bool) -> 'a1 list -> 'a1 list
-
-type dir =
-| DLeft
-| DRight
-
-val first_kmer : nat -> dna -> dna
-
-val last_kmer : nat -> dna -> dna
-
-val term_kmer : nat -> dna -> dir -> dna
-
-val index_where : ('a1 -> bool) -> 'a1 list -> nat option
-
-val end_index : dna list -> dna -> nat option
-
-type link = (nat * dir) * bool
-
-val find_link_ends : bool -> dna list -> dna list -> dna -> dir -> link option
-
-val ends_of : nat -> dna list -> dir -> dna list
-
-val extend : dna -> n -> dir -> dna
-
-val edges_ends :
-  bool -> dna list -> dna list -> nat -> dir -> n list -> link list
-
-type key = n
-
-type bv = bool list
-
-val lset : 'a1 list -> nat -> 'a1 -> 'a1 list
-
-val bnew : nat -> bv
-
-val bget : bv -> nat -> bool
-
-val bset : bv -> nat -> bool -> bv
-
-val popcount0 : bv -> nat
-
-val mAX_ITERS : nat
-
-val fc_sync : (bv * bv) -> nat -> bv * bv
-
-val filter_sync : bv -> bv -> (key * nat) list -> bv * key list
-
-val level_slots :
-  (nat -> nat -> key -> nat) -> (nat -> nat) -> nat -> key list -> nat list
-
-val level_serial :
-  (nat -> nat -> key -> nat) -> (nat -> nat) -> nat -> key list -> bv * key
-  list
-
-val mphf_loop :
-  (nat -> nat -> key -> nat) -> (nat -> nat) -> nat -> nat -> key list -> bv
-  list option
-
-val mphf_new :
-  (nat -> nat -> key -> nat) -> (nat -> nat) -> key list -> bv list option
-
-val try_hash_from :
-  (nat -> nat -> key -> nat) -> nat -> nat -> bv list -> key -> nat option
-
-val try_hash : (nat -> nat -> key -> nat) -> bv list -> key -> nat option
-
-val create_map :
-  (nat -> nat -> key -> nat) -> (key * 'a1) list -> bv list -> (key * 'a1)
-  option list
-
-val vdir : val0 -> dir option
-
-val ofdir : dir -> val0
-
-val oflink : link option -> val0
-
-val vquery : val0 -> (dna * dir) option
-
-val vequery : val0 -> ((nat * dir) * n list) option
-
-val setbits_from : nat -> bv -> nat list
-
-val assoc_nat : nat -> (nat * nat) list -> nat
-
-val vpair_nat : val0 -> (nat * nat) option
-
-val vnats : val0 -> nat list option
-
-val index_model : (nat * nat) list -> nat list list -> val0
-
-val d_bbhash : string -> val0 -> val0 option
 
 val cfg_of : n -> n -> kcfg
 
